@@ -12,6 +12,12 @@ package executor
 
 //@ func NewDefaultExecutor
 //@   nomod
+// C11 / C19: the interpreter writes to the task's sinks as given (a missing one is replaced by io.Discard, never
+// passed on as nil: io.MultiWriter would crash on the first byte)
+//@   callsite MultiWriter#1
+//@     requires #C11.stdout-sink len(arg0) == 2 && arg0[1] != nil && (stdout0 != nil ==> arg0[1] == stdout0)
+//@   callsite MultiWriter#2
+//@     requires #C11.stderr-sink len(arg0) == 2 && arg0[1] != nil && (stderr0 != nil ==> arg0[1] == stderr0)
 //@   ensures result#1 == nil ==> result != nil && fresh(result) && result.interp != nil
 //@   ensures !exitOK(result#1)
 
